@@ -269,6 +269,30 @@ func H_TokenName() {
 	}
 }
 
+// H_TokenName3: a three-byte token name (letters, digits, underscore).
+func H_TokenName3() {
+	b0, b1, b2 := vrt.Byte("n0"), vrt.Byte("n1"), vrt.Byte("n2")
+	for _, b := range []byte{b0, b1, b2} {
+		vrt.Assume(vrt.Or(vAlnum(b), b == '_'))
+	}
+	name := string([]byte{b0, b1, b2})
+	ok, text := vRun([]byte("@lexer\nAB = 'a'\n" + name + " = 'x'\n@macro MC = 'm'\n@mode MD {\nCD = 'c'\n}\n@parser\n@start st = AB\n"))
+	// documented rules: upper-case letter first, then upper-case letters, digits
+	// and underscores, not ending in an underscore, no two underscores in a row;
+	// not one of the reserved names (EOF is the only three-letter one)
+	mid := vrt.Or(vUpper(b1), vrt.Or(vDigit(b1), b1 == '_'))
+	last := vrt.Or(vUpper(b2), vDigit(b2))
+	wellFormed := vrt.And(vUpper(b0), vrt.And(mid, last))
+	wellFormed = vrt.And(wellFormed, vrt.Not(vrt.And(b0 == 'E', vrt.And(b1 == 'O', b2 == 'F'))))
+	vrt.Assert(vrt.Iff(ok, wellFormed), "accepted-iff-well-formed")
+	if !ok {
+		vrt.Reach("rejected")
+		vrt.Assert(vMentionsLine(text, 0, 3), "diagnostic-at-the-declaration")
+	} else {
+		vrt.Reach("accepted")
+	}
+}
+
 // H_ClassRange: [lo-hi] with lo, hi arbitrary letters or digits: accepted iff
 // lo <= hi; a rejection names the declaration's line.
 func H_ClassRange() {
